@@ -41,6 +41,7 @@ fn main() {
     "C04" => drive::c04::check(Ctx::new(id, &tier, "exploration"), replay),
     "C06" => drive::c06::check(Ctx::new(id, &tier, "exploration"), replay),
     "C07" => drive::c07::check(Ctx::new(id, &tier, "exploration"), replay),
+    "C08" => drive::c08::check(Ctx::new(id, &tier, "exploration"), replay),
     "C09" => drive::c09::check(Ctx::new(id, &tier, "model_checking"), replay),
     "C10" => drive::c10::check(Ctx::new(id, &tier, "exploration"), replay),
     "C11" => drive::c11::check(Ctx::new(id, &tier, "exploration"), replay),
